@@ -334,19 +334,48 @@ func runC08(c *Ctx, w *World, r *Report) {
 		if !okW || !okM || mk == nil {
 			bad = "width/byteCap/result allocation not found"
 		} else {
-			if !isProductOf(fa, stripConv(mk.Len), lenS, M) {
+			// append form: the result starts empty and one word is appended in every iteration of the full inner loop
+			// j in [0, byteCap) of the full outer loop i in [0, len(s)): word i*byteCap+j by construction
+			appendForm := false
+			if k, isK := constInt64(mk.Len); isK && k == 0 {
+				appendForm = true
+			} else if !isProductOf(fa, stripConv(mk.Len), lenS, M) {
 				bad = "result length is " + fa.Lin(mk.Len).String() + ", expected len(s)*byteCap"
 			}
 			nst := 0
 			eachInstr(fn, func(ins ssa.Instruction) {
-				st, ok := ins.(*ssa.Store)
-				if !ok {
-					return
+				var stVal ssa.Value
+				var stBlk *ssa.BasicBlock
+				var ia *ssa.IndexAddr
+				if appendForm {
+					call, ok := ins.(*ssa.Call)
+					if !ok {
+						return
+					}
+					vals := appendedValues(call)
+					if len(vals) == 0 {
+						return
+					}
+					if len(vals) != 1 {
+						bad = "several words appended at once"
+						return
+					}
+					stVal, stBlk = vals[0], call.Block()
+				} else {
+					st0, ok := ins.(*ssa.Store)
+					if !ok {
+						return
+					}
+					ia0, ok := st0.Addr.(*ssa.IndexAddr)
+					if !ok || ia0.X != ssa.Value(mk) {
+						return
+					}
+					stVal, stBlk, ia = st0.Val, st0.Block(), ia0
 				}
-				ia, ok := st.Addr.(*ssa.IndexAddr)
-				if !ok || ia.X != ssa.Value(mk) {
-					return
-				}
+				st := struct {
+					Val   ssa.Value
+					Block func() *ssa.BasicBlock
+				}{stVal, func() *ssa.BasicBlock { return stBlk }}
 				nst++
 				// value = (s[i] >> amt) & wordMask
 				a, b, ok := asBin(st.Val, token.AND)
@@ -387,20 +416,65 @@ func runC08(c *Ctx, w *World, r *Report) {
 				if !(bdI.HasHi && bdI.Hi == -1) {
 					bad = "byte index is not bounded by i < len(s)"
 				}
-				// index = i*m + j
-				rest, ok := linProductPlus(fa, fa.Lin(ia.Index), iL, M)
-				if !ok || len(rest.T) != 1 || rest.K != 0 {
-					bad = "destination index is " + fa.Lin(ia.Index).String() + ", expected i*byteCap + j"
-					return
-				}
 				var jL Lin
-				for atom := range rest.T {
-					jv := fa.AtomValue(atom)
-					ivJ, ok := fa.InductionOf(jv, st.Block())
-					if !ok || !ivJ.FirstConst || ivJ.First != 0 || ivJ.Step != 1 || !ivJ.HasN || !ivJ.N.Eq(M) {
-						bad = "word-in-byte index does not run over [0, byteCap)"
+				if appendForm {
+					// the counters are the loops themselves: inner j over [0, byteCap), outer i over [0, len(s)), both complete,
+					// the append executed once per inner iteration, the inner loop once per outer iteration
+					inner := innermostLoop(stBlk)
+					var jPhi *ssa.Phi
+					if inner != nil {
+						for _, pi := range inner.Instrs {
+							q, isPhi := pi.(*ssa.Phi)
+							if !isPhi {
+								break
+							}
+							if af := fa.affineOf(q); af != nil && af.ok && af.step == 1 && af.init.Eq(linConst(0)) && isIntType(q.Type()) {
+								jPhi = q
+							}
+						}
 					}
-					jL = linAtom(atom)
+					if jPhi == nil || ivI.Phi.Block() == inner || !loopBody(ivI.Phi.Block())[inner] {
+						bad = "the appending loop nest is not `for i over s { for j in [0, byteCap) { append } }`"
+						return
+					}
+					ivJ, ok := fa.InductionOf(jPhi, stBlk)
+					switch {
+					case !ok || !ivJ.FirstConst || ivJ.First != 0 || ivJ.Step != 1 || !ivJ.HasN || !ivJ.N.Eq(M):
+						bad = "word-in-byte index does not run over [0, byteCap)"
+					case fa.earlyExit(ivJ) != "":
+						bad = "the inner appending loop can be left early: " + fa.earlyExit(ivJ)
+					case !ivI.HasN || !ivI.N.Eq(lenS) || fa.earlyExit(ivI) != "":
+						bad = "the outer appending loop does not run over every byte of s"
+					}
+					for _, pr := range inner.Preds {
+						if inner.Dominates(pr) && !stBlk.Dominates(pr) {
+							bad = "a word is not appended in every iteration of the inner loop"
+						}
+					}
+					for _, pr := range ivI.Phi.Block().Preds {
+						if ivI.Phi.Block().Dominates(pr) && !inner.Dominates(pr) {
+							bad = "the inner loop does not run in every iteration of the outer loop"
+						}
+					}
+					if bad != "" {
+						return
+					}
+					jL = linAtom(fa.VN(jPhi))
+				} else {
+					// index = i*m + j
+					rest, ok := linProductPlus(fa, fa.Lin(ia.Index), iL, M)
+					if !ok || len(rest.T) != 1 || rest.K != 0 {
+						bad = "destination index is " + fa.Lin(ia.Index).String() + ", expected i*byteCap + j"
+						return
+					}
+					for atom := range rest.T {
+						jv := fa.AtomValue(atom)
+						ivJ, ok := fa.InductionOf(jv, st.Block())
+						if !ok || !ivJ.FirstConst || ivJ.First != 0 || ivJ.Step != 1 || !ivJ.HasN || !ivJ.N.Eq(M) {
+							bad = "word-in-byte index does not run over [0, byteCap)"
+						}
+						jL = linAtom(atom)
+					}
 				}
 				// amt = 8 - W*j - W
 				AL := fa.Lin(amt)
@@ -695,6 +769,34 @@ func runC08(c *Ctx, w *World, r *Report) {
 					L := fa.Lin(e)
 					pred := p.Block().Preds[k]
 					isA, isB := isWords(L, lenA), isWords(L, lenB)
+					if !isA && !isB {
+						// min(la, lb) computed first (end = min(end, min(la, lb))): a merge of the two word counts, each
+						// taken on the edge where it is the smaller one, clamps against both at once
+						if ip, ok := stripConv(e).(*ssa.Phi); ok && len(ip.Edges) == 2 && !isLoopHeaderPhi(ip) {
+							okMin := true
+							sawA, sawB := false, false
+							for kk, ie := range ip.Edges {
+								IL, OL := fa.Lin(ie), fa.Lin(ip.Edges[1-kk])
+								a1, b1 := isWords(IL, lenA), isWords(IL, lenB)
+								a2, b2 := isWords(OL, lenA), isWords(OL, lenB)
+								if !(a1 && b2 || b1 && a2) {
+									okMin = false
+									break
+								}
+								sawA, sawB = sawA || a1, sawB || b1
+								ipred := ip.Block().Preds[kk]
+								for _, cs := range fa.CondsDNF(ipred, 0) {
+									cs2 := append(append([]Cond{}, cs...), selfCond(ipred, ip.Block())...)
+									if bd := fa.boundsFrom(cs2, IL.Sub(OL)); !(bd.HasHi && bd.Hi <= 0) {
+										okMin = false
+									}
+								}
+							}
+							if okMin && sawA && sawB {
+								isA, isB = true, true
+							}
+						}
+					}
 					if !isA && !isB {
 						continue
 					}
